@@ -6,8 +6,9 @@ CONSTANTS
   NoteSet = {0, 1}
   MaxNet = 2
   MaxBlobs = 2
+  MaxClock = 1
   Weaken = "none"
 VIEW MCView
 INVARIANTS Invs
-PROPERTIES AcceptNeedsKey GenStable DispatchIsDisjunction
+PROPERTIES AcceptNeedsKey GenStable DispatchIsDisjunction NotExpired ClockMonotone
 CHECK_DEADLOCK FALSE
